@@ -76,18 +76,21 @@ def gen_menu_tree(rng, dirsel, feature=None):
     visible_after_cap = [n for n in names if not (n in caps and dict(caps[n]["fields"]).get("Type") in ("X", "-"))]
     linkfiles = {}
     touched = set()
-    link_hidden = set()
+    # hidden by .cap or (below) by a link block: later blocks may name the file again, it stays hidden
+    link_hidden = set(n for n in names if n not in visible_after_cap)
     for lf in sorted(rng.sample([".Links", ".names"], rng.randrange(1, 3))):
         blocks = []
         for _ in range(rng.randrange(1, 5)):
             # a file is addressed by one block — or by several once a block has hidden it (it stays hidden)
-            cands = [n for n in visible_after_cap if n not in touched or n in link_hidden]
+            cands = [n for n in names if n not in touched or n in link_hidden]
             ov = bool(cands) and rng.random() < 0.55
             b = c08gen.gen_block(rng, cands, override=ov)
             d = dict(b["fields"])
             if ov:
                 t = d["Path"][2:]
                 touched.add(t)
+                if t not in visible_after_cap:
+                    feats.add("cap-hidden-relisted")
                 if t in link_hidden:
                     blocks.append(b)
                     continue
@@ -141,6 +144,8 @@ def dedicated(dirsel="/d"):
                                     B(Name="Plain", Type="0", Path="notes/x.txt"),
                                     B(Name="Finger", Type="0", Path="lindner", Host="mudhoney.micro.umn.edu", Port="79")]})
     sc("cap-hide", {}, caps={"fred": B(Type="-"), "b.txt": B(Type="X")})
+    sc("cap-hide-then-title", {".names": [B(Path="./fred", Name="Fred is back"), B(Type="X", Path="./b.txt")]},
+       caps={"fred": B(Type="-"), "b.txt": B(Type="X")}, feats=["cap-hidden-relisted"])
     sc("cap-override", {}, caps={"fred": B(Name="New Long Cool Name", Numb="2")})
     return out
 
@@ -160,11 +165,11 @@ def expected_menu(sc, mode):
         entries.append({"selector": sel, "type": ty, "name": FILES[n][1 + mi], "host": None, "port": None, "num": None,
                         "abstract": ab})
         gplus.add(sel)
-    hidden = set()
+    hidden = set()      # selectors hidden so far: by a .cap file or by a link block; hidden stays hidden
     for n, b in sc["caps"].items():
         if n in sc["names"]:
             bb = {"comments": [], "fields": [("Path", "./" + n)] + [kv for kv in b["fields"] if kv[0] != "Path"]}
-            entries = c08gen.spec_apply(entries, base, [bb])
+            entries = c08gen.spec_apply(entries, base, [bb], hidden)
     for lf in sorted(sc["linkfiles"]):
         entries = c08gen.spec_apply(entries, base, sc["linkfiles"][lf], hidden)
     keys = [c08gen.spec_key(e) for e in entries]
@@ -286,7 +291,9 @@ def run(tier):
                 menu_diffs += 1
                 found = True
                 feats = sc["features"]
-                if "double-hide" in feats:
+                if "cap-hidden-relisted" in feats:
+                    tag = "c08-cap-hidden-relisted"
+                elif "double-hide" in feats:
                     tag = "c08-double-hide-raises"
                 elif "hide-missing" in feats:
                     tag = "c08-hide-missing-entry"
